@@ -302,6 +302,20 @@ func c14Check(c c14Case) error {
 	}
 	ra := scpu.Raw()
 	hookA := hookCalls
+	// (every other case) before run B: a traced run whose sink panics on its second line, recovered by the caller; the
+	// System is used again right after it and run B's lines must be those of run B
+	if c.MemSeed&2 != 0 {
+		load(scpu)
+		pw := &countWriter{}
+		pw.onWrite = func() {
+			if pw.n >= 1 {
+				panic("trace sink: disk full")
+			}
+		}
+		sys.Logger = pw
+		_ = rig.Safe(func() error { sys.RunUntil(never, budget); return nil })
+		sys.Logger = nil
+	}
 	// run B
 	mb := load(scpu)
 	lw := &countWriter{}
@@ -321,6 +335,12 @@ func c14Check(c c14Case) error {
 	}
 	if dm := rig.DiffMem(ma, mb, 4); len(dm) > 0 {
 		return fmt.Errorf("running with a Logger changed memory at $%06X", dm[0])
+	}
+	// the bytes shown in a line are read through the bus like any others: each by its own address (the test memory sits
+	// behind sixteen handlers that alternate per 16-byte segment; on a bus with several devices a byte fetched through its
+	// neighbour's handler is a byte of the wrong device)
+	if fa, fb := ma.BusFault(), mb.BusFault(); fa == "" && fb != "" {
+		return fmt.Errorf("the traced run %s (the untraced run did not)", fb)
 	}
 	// run C: a sink that starts failing after a few lines (full buffer, closed pipe) must not change the run either
 	mc := load(scpu)
